@@ -11,6 +11,7 @@
 import DDV.Gen.Emit
 import DDV.Gen.Lemmas.Enum
 import DDV.Props.C15
+import DDV.Gen.Lemmas.LowerTree
 
 namespace DDV.Props.C19
 open DDV.Gen
@@ -98,5 +99,37 @@ theorem debug_calls_existing_getters (bo : DDV.Bits.ByteOrder) (bito : DDV.Bits.
   intro f hf
   unfold getterJson
   simp [hr f hf, Lean.Json.mkObj]
+
+/-- **An accessor for every declared object** (ref-free trees): whenever the lowering succeeds,
+    the root block has, in declaration order, one accessor per top-level object, named after it and
+    of its kind, and every nested block has its own block struct with one accessor per child. -/
+theorem accessor_for_every_object (n : Names) (cfg : GlobalConfig) (all : List Object) (fuel : Nat)
+    (deviceName : String) (os : List Object) (blocks : List LBlock)
+    (hrf : RefFreeList os) (hl : collectIntoBlocks n cfg all fuel none deviceName true os = .ok blocks) :
+    ∃ root rest, blocks = root :: rest ∧ root.name = deviceName ∧
+      root.methods = os.map (methodOf n cfg) ∧ rest = blocksOfList n cfg os := by
+  unfold collectIntoBlocks at hl
+  simp only [bind, Except.bind, pure, Except.pure] at hl
+  cases hc : collectMethods n cfg all fuel os with
+  | error e => rw [hc] at hl; cases hl
+  | ok p =>
+    obtain ⟨ms, bs⟩ := p
+    rw [hc] at hl
+    simp only [Except.ok.injEq] at hl
+    obtain ⟨e1, e2⟩ := (lowering_structure n cfg all fuel).2 os ms bs hrf hc
+    refine ⟨_, _, hl.symm, rfl, ?_, e2⟩
+    rw [e1, methodsOfList_eq_map]
+
+/-- … and the accessor of an object has the object's name (normalised once more for methods), kind
+    and — for registers and buffers — access marker. -/
+theorem accessor_shape (n : Names) (cfg : GlobalConfig) :
+    (∀ r, (methodOf n cfg (.register r)).name = n.method r.name ∧ (methodOf n cfg (.register r)).kind = .register ∧
+          (methodOf n cfg (.register r)).access = some r.access ∧ (methodOf n cfg (.register r)).target = some r.name) ∧
+    (∀ c, (methodOf n cfg (.command c)).name = n.method c.name ∧ (methodOf n cfg (.command c)).kind = .command) ∧
+    (∀ b, (methodOf n cfg (.buffer b)).name = n.method b.name ∧ (methodOf n cfg (.buffer b)).kind = .buffer ∧
+          (methodOf n cfg (.buffer b)).access = some b.access) ∧
+    (∀ h cs, (methodOf n cfg (.block h cs)).name = n.method h.name ∧ (methodOf n cfg (.block h cs)).kind = .block ∧
+             (methodOf n cfg (.block h cs)).target = some h.name) :=
+  ⟨fun _ => ⟨rfl, rfl, rfl, rfl⟩, fun _ => ⟨rfl, rfl⟩, fun _ => ⟨rfl, rfl, rfl⟩, fun _ _ => ⟨rfl, rfl, rfl⟩⟩
 
 end DDV.Props.C19
